@@ -567,6 +567,32 @@ of another entry's path (a file is not a directory; paths are distinct) -/
 def IsListing (t : Tree α) : Prop :=
   (∀ f ∈ t, f.1 ≠ []) ∧ (∀ f ∈ t, ∀ f' ∈ t, f.1 <+: f'.1 → f = f')
 
+theorem eq_of_filter_length_le_one {β : Type _} (p : β → Bool) (l : List β) (h : (l.filter p).length ≤ 1)
+    (a b : β) (ha : a ∈ l) (hb : b ∈ l) (hpa : p a = true) (hpb : p b = true) : a = b := by
+  have ha' : a ∈ l.filter p := List.mem_filter.mpr ⟨ha, hpa⟩
+  have hb' : b ∈ l.filter p := List.mem_filter.mpr ⟨hb, hpb⟩
+  match hf : l.filter p, h with
+  | [], _ => rw [hf] at ha'; cases ha'
+  | [x], _ =>
+    rw [hf] at ha' hb'
+    rw [List.mem_singleton.mp ha', List.mem_singleton.mp hb']
+  | _ :: _ :: _, h => simp at h
+
+/-- the executable listing check (run by the driver on every generated tree) implies `IsListing` -/
+theorem isListingB_sound (t : Tree α) (h : isListingB t = true) : IsListing t := by
+  unfold isListingB at h
+  rw [List.all_eq_true] at h
+  constructor
+  · intro f hf
+    have := h f hf
+    simp only [Bool.and_eq_true, Bool.not_eq_true', List.isEmpty_eq_false_iff] at this
+    exact this.1
+  · intro f hf f' hf' hpre
+    have := h f hf
+    simp only [Bool.and_eq_true, beq_iff_eq] at this
+    exact eq_of_filter_length_le_one _ t (Nat.le_of_eq this.2) f f' hf hf'
+      (List.isPrefixOf_iff_prefix.mpr (List.prefix_refl _)) (List.isPrefixOf_iff_prefix.mpr hpre)
+
 theorem parseAll_mem (t : Tree α) (fs : List (PFile α)) (h : parseAll t = .ok fs) :
     ∀ s ∈ fs, ∃ f ∈ t, s.path = f.1 ∧ s.cols = f.2.getD [] ∧ s.obj = f.2.isSome ∧
       parseName (f.1.getLastD []) = .ok (s.suffix, s.ents) := by
@@ -693,12 +719,15 @@ theorem DirList.files_prefix (excl : List Str) (keep : Str → Bool) :
     intro here f hf
     simp only [DirList.files, List.mem_append] at hf
     rcases hf with hf | hf
-    · split at hf
-      · cases hf
-      · obtain ⟨r, _, he⟩ := Dir.files_prefix excl keep d (here ++ [n]) f hf
+    · by_cases hc : fileListPrunes excl here n = true
+      · rw [if_pos hc] at hf; cases hf
+      · rw [if_neg hc] at hf
+        obtain ⟨r, _, he⟩ := Dir.files_prefix excl keep d (here ++ [n]) f hf
         exact ⟨n :: r, by simp, by rw [he]; simp⟩
     · exact DirList.files_prefix excl keep rest here f hf
 end
+
+theorem fileListPrunes_nil (here : Path) (n : Str) : fileListPrunes [] here n = false := rfl
 
 theorem getLastD_concat' (l : Path) (a : Str) : (l ++ [a]).getLastD [] = a := by simp
 
@@ -724,17 +753,17 @@ theorem DirList.files_eq_filter (excl : List Str) (keep : Str → Bool) :
   | .nil => by intro here; simp [DirList.files]
   | .cons n d rest => by
     intro here
-    simp only [DirList.files, List.filter_append, List.contains_nil, Bool.false_eq_true, if_false]
+    simp only [DirList.files, fileListPrunes_nil, List.filter_append, Bool.false_eq_true, if_false]
     rw [← DirList.files_eq_filter excl keep rest here]
     congr 1
     have hpre := Dir.files_prefix ([] : List Str) (fun _ => true) d (here ++ [n])
-    by_cases hc : excl.contains n = true
+    by_cases hc : fileListPrunes excl here n = true
     · simp only [hc, if_true]
       symm
       rw [List.filter_eq_nil_iff]
       intro f hf
       obtain ⟨r, hr, he⟩ := hpre f hf
-      have hm : n ∈ excl := by simpa using hc
+      have hm : n ∈ excl := by simpa [fileListPrunes] using hc
       rw [he, List.append_assoc, List.singleton_append, visFrom_cons here n r excl hr]
       simp [hm]
     · simp only [hc, if_false]
@@ -742,7 +771,7 @@ theorem DirList.files_eq_filter (excl : List Str) (keep : Str → Bool) :
       apply List.filter_congr
       intro f hf
       obtain ⟨r, hr, he⟩ := hpre f hf
-      have hm : ¬ n ∈ excl := by simpa using hc
+      have hm : ¬ n ∈ excl := by simpa [fileListPrunes] using hc
       rw [he]
       conv => rhs; rw [List.append_assoc, List.singleton_append, visFrom_cons here n r excl hr]
       simp [hm]
@@ -779,6 +808,116 @@ theorem discover_order_independent (D D' : Dir α) (f : NameFilter) (excl : List
 theorem discover_eq_getFileList (D : Dir α) (excl : List Str) (suffix ext : Str) :
     discover D.listing excl suffix ext = getFileList D ⟨[], [suffix], [ext]⟩ excl := by
   rw [discover_spec]; rfl
+
+/-! ## both walkers exclude the same directories; who takes part -/
+
+/-- **walkers_agree_on_exclusion.**  `get_file_list` (which builds the sidecar and data-file lists) and
+`get_dir_dictionary` (which builds the per-directory sidecar index) prune exactly the same directories:
+both test the bare directory name, in every directory. -/
+theorem walkers_agree_on_exclusion (excl : List Str) (here : Path) (n : Str) :
+    fileListPrunes excl here n = dirDictPrunes excl here n := rfl
+
+/-- pruning is by *name*: it does not depend on where the directory is, and holds iff the name is listed -/
+theorem prunes_by_name (excl : List Str) (here here' : Path) (n : Str) :
+    fileListPrunes excl here n = fileListPrunes excl here' n ∧
+    (fileListPrunes excl here n = true ↔ n ∈ excl) ∧ (dirDictPrunes excl here n = true ↔ n ∈ excl) := by
+  simp [fileListPrunes, dirDictPrunes]
+
+mutual
+theorem Dir.dict_files (excl : List Str) (keep : Str → Bool) (skip : Bool) :
+    (D : Dir α) → ∀ here, (D.dict excl keep skip here).flatMap (·.2) = (D.files excl keep here).map (·.1)
+  | .mk fs subs => by
+    intro here
+    simp only [Dir.dict, Dir.files, List.flatMap_append, List.map_append, List.map_map]
+    rw [DirList.dict_files excl keep skip subs here]
+    congr 1
+    by_cases h : (skip && ((fs.filter fun f => keep f.1).map fun f => here ++ [f.1]).isEmpty) = true
+    · rw [if_pos h]
+      simp only [Bool.and_eq_true, List.isEmpty_iff, List.map_eq_nil_iff] at h
+      simp [h.2]
+    · rw [if_neg h]; simp [Function.comp_def]
+theorem DirList.dict_files (excl : List Str) (keep : Str → Bool) (skip : Bool) :
+    (L : DirList α) → ∀ here, (L.dict excl keep skip here).flatMap (·.2) = (L.files excl keep here).map (·.1)
+  | .nil => by intro here; simp [DirList.dict, DirList.files]
+  | .cons n d rest => by
+    intro here
+    simp only [DirList.dict, DirList.files, List.flatMap_append, List.map_append]
+    rw [DirList.dict_files excl keep skip rest here, ← walkers_agree_on_exclusion]
+    congr 1
+    by_cases hc : fileListPrunes excl here n = true
+    · simp [hc]
+    · simp only [hc, if_false]; exact Dir.dict_files excl keep skip d (here ++ [n])
+end
+
+/-- **walkers_agree.**  For the same filter and excluded names, the files in the directory dictionary
+are, in the same order, the files of the file list: no sidecar is indexed without being listed and none is
+listed without being indexed (with `skip_empty` or without). -/
+theorem walkers_agree (D : Dir α) (f : NameFilter) (excl : List Str) (skip : Bool) :
+    (getDirDictionary D f excl skip).flatMap (·.2) = (getFileList D f excl).map (·.1) :=
+  Dir.dict_files excl (checkFilename f) skip D []
+
+theorem parseAll_mem_conv (t : Tree α) (fs : List (PFile α)) (h : parseAll t = .ok fs) :
+    ∀ f ∈ t, ∃ s ∈ fs, s.path = f.1 := by
+  induction t generalizing fs with
+  | nil => intro f hf; cases hf
+  | cons f r ih =>
+    obtain ⟨p, c⟩ := f
+    cases hp : parseName (p.getLastD []) with
+    | error e => simp only [parseAll, hp] at h; cases h
+    | ok v =>
+      obtain ⟨sfx, es⟩ := v
+      cases hr : parseAll r with
+      | error e => simp only [parseAll, hp, hr] at h; cases h
+      | ok fs' =>
+        simp only [parseAll, hp, hr] at h
+        cases h
+        intro f hf
+        rcases List.mem_cons.mp hf with rfl | hf
+        · exact ⟨_, List.mem_cons_self .., rfl⟩
+        · obtain ⟨s, hs, hps⟩ := ih fs' hr f hf
+          exact ⟨s, List.mem_cons_of_mem _ hs, hps⟩
+
+/-- **participation_spec.**  For every directory tree whose group loads: the paths of the group's
+sidecars (data files) are exactly the paths of the files of the tree that have the suffix and the
+`.json` (`.tsv`) extension and of whose directory components none is an excluded name — at any depth. -/
+theorem participation_spec (D : Dir α) (excl : List Str) (suffix : Str) (g : Group α)
+    (h : load D.listing excl suffix = .ok g) (p : Path) :
+    ((∃ s ∈ g.sidecars, s.path = p) ↔
+      (∃ e ∈ D.listing, e.1 = p) ∧ participates excl p ∧ checkName (p.getLastD []) suffix jsonExt = true) ∧
+    ((∃ d ∈ g.datafiles, d.path = p) ↔
+      (∃ e ∈ D.listing, e.1 = p) ∧ participates excl p ∧ checkName (p.getLastD []) suffix tsvExt = true) := by
+  unfold load at h
+  cases h1 : parseAll (discover D.listing excl suffix jsonExt) with
+  | error e => rw [h1] at h; cases h
+  | ok ss =>
+    cases h2 : parseAll ((discover D.listing excl suffix tsvExt).map fun f => (f.1, (some [] : Option (Columns α)))) with
+    | error e => rw [h1, h2] at h; cases h
+    | ok ds =>
+      rw [h1, h2] at h
+      cases h
+      have hvis : ∀ q, visible excl q = true ↔ participates excl q := by
+        intro q; simp [visible, participates]
+      have hdisc : ∀ ext (e : Path × Option (Columns α)), e ∈ discover D.listing excl suffix ext ↔
+          e ∈ D.listing ∧ participates excl e.1 ∧ checkName (e.1.getLastD []) suffix ext = true := by
+        intro ext e
+        simp only [discover, List.mem_filter, Bool.and_eq_true, hvis]
+      constructor
+      · constructor
+        · rintro ⟨s, hs, rfl⟩
+          obtain ⟨f, hf, hp, _⟩ := parseAll_mem _ ss h1 s hs
+          obtain ⟨h1', h2', h3'⟩ := (hdisc _ f).mp hf
+          rw [hp]; exact ⟨⟨f, h1', rfl⟩, h2', h3'⟩
+        · rintro ⟨⟨e, he, rfl⟩, hpart, hck⟩
+          exact parseAll_mem_conv _ ss h1 e ((hdisc _ e).mpr ⟨he, hpart, hck⟩)
+      · constructor
+        · rintro ⟨s, hs, rfl⟩
+          obtain ⟨f, hf, hp, _⟩ := parseAll_mem _ ds h2 s hs
+          obtain ⟨f0, hf0, rfl⟩ := List.mem_map.mp hf
+          obtain ⟨h1', h2', h3'⟩ := (hdisc _ f0).mp hf0
+          rw [hp]; exact ⟨⟨f0, h1', rfl⟩, h2', h3'⟩
+        · rintro ⟨⟨e, he, rfl⟩, hpart, hck⟩
+          exact parseAll_mem_conv _ ds h2 (e.1, some [])
+            (List.mem_map.mpr ⟨e, (hdisc _ e).mpr ⟨he, hpart, hck⟩, rfl⟩)
 
 /-! ## dataset validation through the C08 / C07 models, command line -/
 
